@@ -357,6 +357,14 @@ func (sc *c12Scenario) Run(s *simrt.Sim) {
 	if !sc.Early {
 		doClose("main")
 	}
+	if sc.Kind == "handler" && sc.Default {
+		// asking for the default Handler again after it was closed yields the same, closed Handler
+		// (what is posted to it afterwards - below - must not run)
+		if again := fpgo.Handler.GetDefault(); again != hd {
+			sc.extra = append(sc.extra, Violation{Clause: "ran-after-close", Fingerprint: "GetDefault-after-Close", Detail: "after Close, GetDefault() returned another Handler than before"})
+		}
+		sc.probes["default-handler-asked-for-again-after-close"]++
+	}
 	for mb := 0; mb < sc.nMailbox; mb++ {
 		submit("main", sc.items[lateBase+mb])
 	}
